@@ -101,6 +101,13 @@ fn check(case: &Case) -> PResult {
     arr_contains!(31, 2);
     arr_contains!(32, 2);
     arr_contains!(33, 3);
+    arr_contains!(47, 3);
+    arr_contains!(48, 3);
+    arr_contains!(49, 4);
+    arr_contains!(63, 4);
+    arr_contains!(64, 4);
+    arr_contains!(65, 5);
+    arr_contains!(80, 5);
     // length mismatch
     let bc = build(&sy, &case.c)?;
     let sc = bc.slice();
@@ -171,6 +178,65 @@ fn check_from_dna(case: &SeqSpec) -> PResult {
         ensure!(c.count_ones() == 1, "from_dna_singleton", "not a singleton set");
     }
     Ok(Pass::new(case.len() >= 2 && case.bit_offset(2) != 0))
+}
+
+/// the static array type's own `contains` for a ladder of array lengths (a const parameter cannot be
+/// generated, so the ladder is fixed): itself, a subset, a near miss at each end, wrong lengths
+fn array_ladder(seed: &u8) -> PResult {
+    let sy = Syms::<IupacC>::new()?;
+    let mut straddling = false;
+    macro_rules! rung {
+        ($n:literal, $w:literal) => {{
+            let n: usize = $n;
+            let pat: Vec<u8> = (0..n).map(|i| (((i * 7 + *seed as usize * 3 + i / 5) % 15) + 1) as u8).collect();
+            let mut words = [0usize; $w];
+            for (i, w) in crate::model::pack_words(&pat, 4).iter().enumerate() {
+                words[i] = *w as usize;
+            }
+            let arr: SeqArray<IupacC, $n, $w> = SeqArray { _p: core::marker::PhantomData, ba: bitvec::array::BitArray::new(words) };
+            let sub: Vec<u8> = pat.iter().enumerate().map(|(i, x)| x & (((i * 11 + *seed as usize) % 16) as u8)).collect();
+            let mut args: Vec<(Vec<u8>, &str)> = vec![(pat.clone(), "the pattern itself"), (sub.clone(), "a subset"), (vec![0; n], "all gaps")];
+            for at in [0usize, n / 2, n - 1] {
+                let mut miss = sub.clone();
+                miss[at] = !pat[at] & 15;
+                if miss[at] != 0 {
+                    args.push((miss, "a near miss"));
+                }
+            }
+            args.push((pat[..n - 1].to_vec(), "one symbol shorter"));
+            let mut longer = pat.clone();
+            longer.push(pat[0]);
+            args.push((longer, "one symbol longer"));
+            for (arg, what) in &args {
+                let exp = subset(arg, &pat);
+                for pre in [0usize, 3] {
+                    let b = build(&sy, &SeqSpec { codes: arg.clone(), repr: Repr::Slice { pre: vec![15; pre], post: vec![1] } })?;
+                    let got = no_panic(&format!("contains_array_panic/{n}"), &format!("SeqArray<Iupac, {n}, {}>::contains({what})", $w), || arr.contains(b.slice()))?;
+                    ensure_eq!(got, exp, format!("contains_array_ladder/{n}"), "SeqArray<Iupac, {n}, {}>::contains({what}, {pre} symbols into its parent)", $w);
+                }
+            }
+            straddling |= n > 16;
+        }};
+    }
+    rung!(1, 1);
+    rung!(16, 1);
+    rung!(17, 2);
+    rung!(63, 4);
+    rung!(64, 4);
+    rung!(65, 5);
+    rung!(100, 7);
+    rung!(127, 8);
+    rung!(128, 8);
+    rung!(129, 9);
+    rung!(255, 16);
+    rung!(256, 16);
+    rung!(257, 17);
+    rung!(1000, 63);
+    rung!(4097, 257);
+    // spare backing words
+    rung!(5, 2);
+    rung!(64, 6);
+    Ok(Pass::new(straddling))
 }
 
 fn strat(max: usize) -> BoxedStrategy<Case> {
@@ -280,6 +346,7 @@ pub fn run(ctx: &mut Ctx) {
     let st = (gen::seq_spec(ID, 100), any::<u16>(), any::<u16>(), any::<u16>()).prop_map(|(parent, i, j, len)| SameParent { parent, i, j, len });
     ctx.forall("same_parent", cases, st, same_parent);
     let cases = ctx.cases(1500, 10);
+    ctx.each("static_array_ladder", vec![0u8, 1, 2, 7], array_ladder);
     ctx.forall("from_dna", cases, gen::seq_spec(CodecId::Dna, 150), check_from_dna);
     // exhaustive: all 256 symbol pairs x all 256 pairs of start offsets (length-1 windows)
     let m = ID.model();
